@@ -295,11 +295,15 @@ template <class V> void Obs(const V &v, Out &o, bool present) {
   if (ok && present) { o << " v"; PrintVal(o, v.Read()); }
   o << " )";
 }
+// GenericArrayView::at() cannot be instantiated for arrays inside `bits` on the pinned tree
+// (OffsetBitBlock has no nullptr constructor; side finding reported to C07): only byte arrays.
+template <class A> bool AtEndOk(const A &v, ::std::size_t n, std::integral_constant< ::std::size_t, 8>) { return v.at(n).Ok(); }
+template <class A, ::std::size_t U> bool AtEndOk(const A &, ::std::size_t, std::integral_constant< ::std::size_t, U>) { return false; }
 template <class E, class B, ::std::size_t N, ::std::size_t U, class... P>
 void Obs(const ::emboss::support::GenericArrayView<E, B, N, U, P...> &v, Out &o, bool) {
   const ::std::size_t n = v.ElementCount();
   o << "[ o" << (v.Ok() ? 1 : 0) << " c" << (v.IsComplete() ? 1 : 0) << " n" << n
-    << " e" << (v.at(n).Ok() ? 1 : 0);
+    << " e" << (AtEndOk(v, n, std::integral_constant< ::std::size_t, U>()) ? 1 : 0);
   for (::std::size_t i = 0; i < n; ++i) { o << " "; Obs(v[i], o, true); }
   o << " ]";
 }
